@@ -545,16 +545,16 @@ func main() {
 		fails, unconfirmed, validated = confirmFailures(plainBin, id, tier, fails, validated)
 	}
 
-	tValid := time.Since(t0)
-	if os.Getenv("VERIF_VERBOSE") != "" {
-		fmt.Printf("phases: build+enumeration %.1fs, validation on plain build %.1fs\n", tEnum.Seconds(), (tValid - tEnum).Seconds())
-	}
 	// ---- known findings
 	var kf knownFile
 	if b, err := os.ReadFile(filepath.Join(verifRoot, "known_findings.json")); err == nil {
 		if err := json.Unmarshal(b, &kf); err != nil {
 			die(2, "known_findings.json: %v", err)
 		}
+	}
+	tValid := time.Since(t0)
+	if os.Getenv("VERIF_VERBOSE") != "" {
+		fmt.Printf("phases: build+enumeration %.1fs, validation on plain build %.1fs\n", tEnum.Seconds(), (tValid - tEnum).Seconds())
 	}
 	sort.Slice(fails, func(i, j int) bool {
 		if len(fails[i].Case) != len(fails[j].Case) {
@@ -565,7 +565,11 @@ func main() {
 	if dump := os.Getenv("VERIF_DUMP"); dump != "" {
 		if f, err := os.Create(dump); err == nil {
 			for _, fl := range fails {
-				b, _ := json.Marshal(fl)
+				m := map[string]any{"class": fl.Class, "tags": fl.Tags, "scenario": fl.Scenario, "index": fl.Index, "case": fl.Case, "detail": fl.Detail}
+				if k := matchKnown(kf.Findings, id, fl); k != nil {
+					m["known"] = k.ID
+				}
+				b, _ := json.Marshal(m)
 				f.Write(append(b, '\n'))
 			}
 			f.Close()
